@@ -27,16 +27,24 @@ def gen_case(rng):
     return scn, {"seed": rng.getrandbits(32), "steps": rng.randint(1, 3)}
 
 
-def pool_row(rows, jc, scn, base, files, plan, res, what):
+def pool_row(rows, jc, scn, base, files, plan, res, what, mrows=None):
     """one real run -> a Converge.pool_run case per repository whose pool stage ran"""
     faults = R.realise_plan(plan or {}, files)
     for r in scn.repos:
         url = r["url"]
         o = res.obs.get(url, {})
         if "pool_queue" not in o:
+            if mrows is not None and "meta_queue" in o and o.get("selected"):
+                mt, mw = R.meta_tie_row(o, files[url], faults.get(url, {}))
+                mrows.append((dict(jc, run=what), mt, mw, {"queued": len(o["meta_queue"]),
+                                                           "counted": bool(o.get("meta_err") or o.get("meta_miss"))}))
             continue
         cleaned = bool(o.get("cleaned")) and res.results.get(url) is True
         fin = R.pool_listing(base / "mirror" / P.repo_dir(url)) if cleaned else None
+        if mrows is not None and "meta_queue" in o and o.get("selected"):
+            mt, mw = R.meta_tie_row(o, files[url], faults.get(url, {}))
+            mrows.append((dict(jc, run=what), mt, mw, {"queued": len(o["meta_queue"]),
+                                                       "counted": bool(o.get("meta_err") or o.get("meta_miss"))}))
         term, want = R.pool_tie_row(o, files[url], faults.get(url, {}), fin)
         rows.append((dict(jc, run=what), term, want,
                      {"cleaned": fin is not None, "counted": bool(o.get("pool_err") or o.get("pool_miss")),
@@ -46,7 +54,7 @@ def pool_row(rows, jc, scn, base, files, plan, res, what):
                                                if v["source"] in o["pool_pre"] and o["pool_pre"][v["source"]][0] != v["size"])}))
 
 
-def run_case(rep, scn, case, sb, tag, rows=None):
+def run_case(rep, scn, case, sb, tag, rows=None, mrows=None):
     rng = random.Random(case["seed"])
     found = False
     rows = rows if rows is not None else []
@@ -75,7 +83,7 @@ def run_case(rep, scn, case, sb, tag, rows=None):
         history.append((mode, res.code))
         if mode in ("clean", "faulty", "pool_fail"):
             pool_row(rows, {"scenario": {"repos": scn.repos, "nthreads": scn.nthreads}, "case": case,
-                            "history": list(history)}, cur, base, files, plan, res, f"step {step} ({mode})")
+                            "history": list(history)}, cur, base, files, plan, res, f"step {step} ({mode})", mrows)
         if rng.random() < 0.35:
             history.append(("same-upstream", 0))     # the next run sees the same upstream version again
             continue
@@ -88,7 +96,7 @@ def run_case(rep, scn, case, sb, tag, rows=None):
     rep.count(f"steps.{case['steps']}")
     for m, c in history:
         rep.count(f"step.{m}.exit{c}")
-    pool_row(rows, jc, cur, base, files, {}, final, "final")
+    pool_row(rows, jc, cur, base, files, {}, final, "final", mrows)
     if final.code != 0:
         found = True
         rep.violation(f"fault-free run on the latest upstream exits {final.code} after history {history} ({final.exc})",
@@ -98,7 +106,7 @@ def run_case(rep, scn, case, sb, tag, rows=None):
     fr = R.run_observed(cur, fresh, files_by_url=files)
     if fr.code != 0:
         return found
-    pool_row(rows, jc, cur, fresh, files, {}, fr, "fresh")
+    pool_row(rows, jc, cur, fresh, files, {}, fr, "fresh", mrows)
     got, want = mirror_tree(base, url), mirror_tree(fresh, url)
     if got != want:
         found = True
@@ -112,7 +120,7 @@ def run_case(rep, scn, case, sb, tag, rows=None):
     before = mirror_tree(base, url, with_mtime=True)
     again = R.run_observed(cur, base, files_by_url=files)
     after = mirror_tree(base, url, with_mtime=True)
-    pool_row(rows, jc, cur, base, files, {}, again, "repeat")
+    pool_row(rows, jc, cur, base, files, {}, again, "repeat", mrows)
     up = again.ups[url.rstrip("/")]
     pool_reqs = [p for p, _, _ in up.log if p.startswith("pool/")]
     if again.code != 0 or after != before:
@@ -155,11 +163,11 @@ def run(rep: C.Report):
     n = 70 if rep.tier == "quick" else 3000
     sb = P.sandbox("vsb_c08_")
     found = False
-    rows = []
+    rows, mrows = [], []
     try:
         for i in range(n):
             scn, case = gen_case(rng)
-            found |= run_case(rep, scn, case, sb, f"h{i}", rows)
+            found |= run_case(rep, scn, case, sb, f"h{i}", rows, mrows)
     finally:
         shutil.rmtree(sb, ignore_errors=True)
     # the pool stage + cleaning of every recorded run, replayed on Converge.pool_run from the real previous tree
@@ -175,6 +183,15 @@ def run(rep: C.Report):
     mism, errors = C.run_mismatch_shards(rep.prop, "pool", header, "m_pool", "eq_pool", [(a, b) for _, a, b, _ in rows], shard=25)
     C.tie_verdict(rep, "pool", mism, errors, [c for c, _, _, _ in rows], found, header=header, fn="m_pool",
                   coq_inputs=[a for _, a, _, _ in rows])
+    # the metadata stage of every recorded run on Stage.run_stage: real queue, real previous skel tree
+    mheader = R.POOL_HEADER + R.POOL_DEFS + R.META_DEFS
+    for _, _, _, m in mrows:
+        rep.count("meta_tie.runs")
+        rep.count("meta_tie.queued_files", m["queued"])
+        rep.count("meta_tie.stage_counted_a_failure", int(m["counted"]))
+    mism, errors = C.run_mismatch_shards(rep.prop, "meta", mheader, "m_meta", "eq_pool", [(a, b) for _, a, b, _ in mrows], shard=25)
+    C.tie_verdict(rep, "meta", mism, errors, [c for c, _, _, _ in mrows], found, header=mheader, fn="m_meta",
+                  coq_inputs=[a for _, a, _, _ in mrows])
     C.proof_verdict(rep, found)
 
 
